@@ -302,6 +302,32 @@ def run(ctx):
             if len(lst.calls) != ncalls or len(prot.transport.sent) != nsent or after[:2] != before[:2]:
                 ctx.violation("entries of an SD message with the unicast flag clear were not ignored", dict(datagram=data.hex()[:6000]))
             ctx.case(("uc", data), kind="live-unicast-flag-clear")
+        # ... also when the entries aim at what the endpoint HOLDS: from the peer whose offer and subscription are stored, a
+        # StopOffer of exactly that service, a StopSubscribe of exactly that subscription, renewals, finds - flag clear: ignored
+        prot, lst, inst, errors = make_stack(loop)
+        r5 = random.Random(ctx.seed * 7919 + 303)
+        ep = H.IPv4EndpointOption(address=__import__("ipaddress").IPv4Address("10.0.0.5"), l4proto=H.L4Protocols.UDP, port=4000)
+        stored_svc = C.Service(0x2222, 7, 1, 3)
+        pool = [stored_svc.create_offer_entry(0), stored_svc.create_offer_entry(3), stored_svc.create_offer_entry(0xFFFFFF),
+                H.SOMEIPSDEntry(H.SOMEIPSDEntryType.Subscribe, 0x1111, 1, 1, 0, 5, options_1=(ep,)),
+                H.SOMEIPSDEntry(H.SOMEIPSDEntryType.Subscribe, 0x1111, 1, 1, 3, 5, options_1=(ep,)),
+                C.Service(0x1111).create_find_entry(3), C.Service(0x3333, 1, 1, 0).create_offer_entry(3)]
+        session = 2
+        for k in range(40 if quick else 800):
+            es = tuple(r5.choice(pool) for _ in range(r5.randint(1, 3)))
+            data = gen.sd_message_bytes(None, H.SOMEIPSDHeader(entries=es, flag_unicast=False), session=session)
+            session += 1
+            before = snapshot(prot, inst)
+            ncalls, nsent = len(lst.calls), len(prot.transport.sent)
+            prot.datagram_received(data, PEER, r5.random() < 0.5)
+            settle(loop)
+            after = snapshot(prot, inst)
+            if len(lst.calls) != ncalls or len(prot.transport.sent) != nsent or after[:2] != before[:2]:
+                ctx.violation("entries of an SD message with the unicast flag clear were not ignored (they aim at stored state)",
+                              dict(datagram=data.hex()[:6000], listener_calls=[repr(c)[:80] for c in lst.calls[ncalls:]]))
+                prot, lst, inst, errors = make_stack(loop)
+                session = 2
+            ctx.case(("uc-stored", k, data), kind="live-unicast-flag-clear-stored-state")
     finally:
         asyncio.set_event_loop(None)
         loop.close()
